@@ -26,23 +26,33 @@ options:
   wrap_python: false
   wrap_lua: false
 declarations:
-- decl: class Obj
+- decl: class Thing
   declarations:
-  - decl: Obj(int id)
-  - decl: ~Obj()
+  - decl: Thing(int id)
+  - decl: ~Thing()
   - decl: int id() const
-- decl: Obj *make(int id) +owner(caller)
-- decl: Obj *borrow()
-- decl: Obj byvalue(int id)
+- decl: Thing *make(int id) +owner(caller)
+- decl: Thing *borrow()
+- decl: Thing byvalue(int id)
 - decl: std::string name()
 - decl: const std::string &nameref()
 - decl: const std::string *nameptrC() +owner(caller)
 - decl: const std::string *nameptrL() +owner(library)
 - decl: int *newArray(int n) +owner(caller)+dimension(n)
 - decl: int *libArray(int n) +dimension(n)
+- decl: int *poolGet(int n) +owner(caller)+dimension(n)+free_pattern(pool_release)
 - decl: void fillVec(std::vector<int> &v +intent(out))
 - decl: void takeStr(const std::string &s)
 - decl: void takeCstr(const char *s)
+- decl: void takeNames(char **names +intent(in)+rank(1))
+- decl: void modStr(std::string &s +intent(inout))
+- decl: void outCstr(char *s +intent(out)+charlen(20))
+- decl: void takeVec(const std::vector<int> &v)
+- decl: void takeVecStr(const std::vector<std::string> &v)
+- decl: std::vector<int> retVec()
+patterns:
+  pool_release: |
+    poolRelease(reinterpret_cast<int *>(ptr));
 """
 
 HPP = r"""
@@ -51,32 +61,40 @@ HPP = r"""
 #include <string>
 #include <vector>
 #include <cstddef>
-class Obj {
+class Thing {
     int m_id; int m_alive;
 public:
-    Obj() : m_id(0), m_alive(0) { }
-    Obj(int id);
-    Obj(const Obj &o);
-    Obj &operator=(const Obj &o);
-    ~Obj();
+    Thing() : m_id(0), m_alive(0) { }
+    Thing(int id);
+    Thing(const Thing &o);
+    Thing &operator=(const Thing &o);
+    ~Thing();
     int id() const;
 #ifndef VT_ASAN
     static void *operator new(size_t n);
     static void operator delete(void *p);
 #endif
 };
-Obj *make(int id);
-Obj *borrow();
-Obj byvalue(int id);
+Thing *make(int id);
+Thing *borrow();
+Thing byvalue(int id);
 std::string name();
 const std::string &nameref();
 const std::string *nameptrC();
 const std::string *nameptrL();
 int *newArray(int n);
 int *libArray(int n);
+int *poolGet(int n);
+void poolRelease(int *p);
 void fillVec(std::vector<int> &v);
 void takeStr(const std::string &s);
 void takeCstr(const char *s);
+void takeNames(char **names);
+void modStr(std::string &s);
+void outCstr(char *s);
+void takeVec(const std::vector<int> &v);
+void takeVecStr(const std::vector<std::string> &v);
+std::vector<int> retVec();
 #endif
 """
 
@@ -92,12 +110,12 @@ long vt_cxx_live = 0;      /* outstanding operator new blocks */
 int vt_ctor = 0, vt_dtor = 0, vt_dd = 0, vt_libfree = 0;
 int vt_live[64];
 int vt_nlive = 0;
-long vt_mal_live = 0; int vt_count_malloc = 0;
+long vt_mal_live = 0; int vt_count_malloc = 0; long vt_base_cxx = 0;
 }
 static void live_add(int id) { vt_live[vt_nlive++] = id; }
 static int live_del(int id) { for (int i = 0; i < vt_nlive; i++) if (vt_live[i] == id) { vt_live[i] = vt_live[--vt_nlive]; return 1; } return 0; }
 #ifndef VT_ASAN
-/* counted global allocator; Obj storage comes from an arena that is never reused, so that a second
+/* counted global allocator; Thing storage comes from an arena that is never reused, so that a second
    delete of the same object is an observable event instead of undefined behaviour */
 extern "C" void *__real_malloc(size_t);
 extern "C" void __real_free(void *);
@@ -105,30 +123,53 @@ void *operator new(size_t n) { void *p = __real_malloc(n ? n : 1); if (!p) throw
 void operator delete(void *p) noexcept { if (p) { vt_cxx_live--; __real_free(p); } }
 void operator delete(void *p, size_t) noexcept { if (p) { vt_cxx_live--; __real_free(p); } }
 static char arena[64 * 64]; static int arena_n = 0;
-void *Obj::operator new(size_t n) { vt_cxx_live++; return arena + 64 * (arena_n++); }
-void Obj::operator delete(void *p) { vt_cxx_live--; }
+void *Thing::operator new(size_t n) { vt_cxx_live++; return arena + 64 * (arena_n++); }
+void Thing::operator delete(void *p) { vt_cxx_live--; }
 #endif
-Obj::Obj(int id) : m_id(id), m_alive(1) { vt_ctor++; live_add(id); }
-Obj::Obj(const Obj &o) : m_id(o.m_id), m_alive(1) { vt_ctor++; live_add(m_id); }
-Obj &Obj::operator=(const Obj &o) { if (m_alive) live_del(m_id); else { vt_ctor++; } m_id = o.m_id; m_alive = 1; live_add(m_id); return *this; }
-Obj::~Obj() { if (!m_alive) { vt_dd++; return; } m_alive = 0; vt_dtor++; if (m_id == 900) vt_libfree++; live_del(m_id); }
-int Obj::id() const { return m_alive ? m_id : -1; }
-static Obj *libobj = 0;
+Thing::Thing(int id) : m_id(id), m_alive(1) { vt_ctor++; live_add(id); }
+Thing::Thing(const Thing &o) : m_id(o.m_id), m_alive(1) { vt_ctor++; live_add(m_id); }
+Thing &Thing::operator=(const Thing &o) { if (m_alive) live_del(m_id); else { vt_ctor++; } m_id = o.m_id; m_alive = 1; live_add(m_id); return *this; }
+Thing::~Thing() { if (!m_alive) { vt_dd++; return; } m_alive = 0; vt_dtor++; if (m_id == 900) vt_libfree++; live_del(m_id); }
+int Thing::id() const { return m_alive ? m_id : -1; }
+static Thing *libobj = 0;
 static std::string *libstr = 0;
 static int libarr[8];
-extern "C" void vt_init(void) { if (!libobj) { libobj = new Obj(900); libstr = new std::string(LONGTEXT " (library)"); } }
-Obj *make(int id) { return new Obj(id); }
-Obj *borrow() { return libobj; }
-Obj byvalue(int id) { return Obj(id); }
+extern "C" void vt_init(void) { if (!libobj) { libobj = new Thing(900); libstr = new std::string(LONGTEXT " (library)"); } }
+Thing *make(int id) { return new Thing(id); }
+Thing *borrow() { return libobj; }
+Thing byvalue(int id) { return Thing(id); }
 std::string name() { return std::string(LONGTEXT); }
 const std::string &nameref() { return *libstr; }
 const std::string *nameptrC() { return new std::string(LONGTEXT " (caller)"); }
 const std::string *nameptrL() { return libstr; }
 int *newArray(int n) { int *p = (int *) std::malloc(sizeof(int) * (n ? n : 1)); for (int i = 0; i < n; i++) p[i] = i + 1; return p; }
+static int pool[4][8]; static int pool_used[4];
+extern "C" { int vt_pool_live = 0; }
+int *poolGet(int n) { for (int k = 0; k < 4; k++) if (!pool_used[k]) { pool_used[k] = 1; vt_pool_live++; for (int i = 0; i < n && i < 8; i++) pool[k][i] = 20 + i; return pool[k]; } return 0; }
+/* the library's own release function: not NULL-safe, counts a release of anything that is not a live slab */
+void poolRelease(int *p) { for (int k = 0; k < 4; k++) if (p == pool[k] && pool_used[k]) { pool_used[k] = 0; vt_pool_live--; return; } vt_dd++; }
 int *libArray(int n) { for (int i = 0; i < n && i < 8; i++) libarr[i] = 10 + i; return libarr; }
 void fillVec(std::vector<int> &v) { v.clear(); v.push_back(4); v.push_back(5); v.push_back(6); }
 void takeStr(const std::string &s) { (void) s.size(); }
 void takeCstr(const char *s) { (void) std::strlen(s); }
+extern "C" { long vt_seen = 0; }
+void takeNames(char **names) { vt_seen = (long) std::strlen(names[0]) * 100 + (long) std::strlen(names[1]); }
+void modStr(std::string &s) { vt_seen = (long) s.size(); s += " and a tail that does not fit into the caller's variable"; }
+void outCstr(char *s) { std::strcpy(s, "twelve chars"); }
+void takeVec(const std::vector<int> &v) { vt_seen = (long) v.size(); }
+void takeVecStr(const std::vector<std::string> &v) { vt_seen = (long) v.size() * 100 + (long) v[v.size() - 1].size(); }
+std::vector<int> retVec() { std::vector<int> v; v.push_back(4); v.push_back(5); v.push_back(6); return v; }
+static int cmpi(const void *a, const void *b) { return *(const int *) a - *(const int *) b; }
+extern "C" void vt_status_f(const char *op, long val, int a0, int o0, int a1, int o1)
+{
+    int ids[64]; std::memcpy(ids, vt_live, sizeof(int) * vt_nlive); std::qsort(ids, vt_nlive, sizeof(int), cmpi);
+    std::printf("ST %s val=%ld live=", op, val);
+    for (int i = 0; i < vt_nlive; i++) std::printf("%s%d", i ? "," : "", ids[i]);
+    std::printf(" net=%d dd=%d libfree=%d pool=%d cxx=%ld h0=%d/%d h1=%d/%d\n", vt_ctor - vt_dtor, vt_dd, vt_libfree, vt_pool_live, vt_cxx_live - vt_base_cxx,
+                a0, a0 ? o0 != 0 : 0, a1, a1 ? o1 != 0 : 0);
+    std::fflush(stdout);
+}
+extern "C" void vt_base(void) { vt_base_cxx = vt_cxx_live; vt_ctor = 0; }
 #ifndef VT_ASAN
 extern "C" void *__wrap_malloc(size_t n) { void *p = __real_malloc(n); if (vt_count_malloc && p) vt_mal_live++; return p; }
 extern "C" void __wrap_free(void *p) { if (vt_count_malloc && p) vt_mal_live--; __real_free(p); }
@@ -140,12 +181,12 @@ DRIVER = r"""
 #include <stdlib.h>
 #include <string.h>
 #include "wrapOwn.h"
-#include "wrapObj.h"
-extern long vt_cxx_live, vt_mal_live; extern int vt_ctor, vt_dtor, vt_dd, vt_libfree, vt_live[], vt_nlive, vt_count_malloc;
+#include "wrapThing.h"
+extern long vt_cxx_live, vt_mal_live, vt_seen; extern int vt_pool_live, vt_ctor, vt_dtor, vt_dd, vt_libfree, vt_live[], vt_nlive, vt_count_malloc;
 void vt_init(void);
 void OWN_ShroudCopyStringAndFree(OWN_SHROUD_array *data, char *c_var, size_t c_var_len);
 void OWN_ShroudCopyArray(OWN_SHROUD_array *data, void *c_var, size_t c_var_size);
-static OWN_Obj h[2];
+static OWN_Thing h[2];
 static OWN_SHROUD_array sctx, actx, vctx;
 static int cmpi(const void *a, const void *b) { return *(const int *) a - *(const int *) b; }
 static long base_cxx;
@@ -153,9 +194,11 @@ static void status(const char *op, long val) {
     int ids[64]; memcpy(ids, vt_live, sizeof(int) * vt_nlive); qsort(ids, vt_nlive, sizeof(int), cmpi);
     printf("ST %s val=%ld live=", op, val);
     for (int i = 0; i < vt_nlive; i++) printf("%s%d", i ? "," : "", ids[i]);
-    printf(" net=%d dd=%d libfree=%d cxx=%ld mal=%ld", vt_ctor - vt_dtor, vt_dd, vt_libfree, vt_cxx_live - base_cxx, vt_mal_live);
-    for (int s = 0; s < 2; s++) printf(" h%d=%d/%d", s, h[s].addr != NULL, h[s].idtor);
-    printf(" s=%d/%d a=%d/%d v=%d/%d\n", sctx.cxx.addr != NULL, sctx.cxx.idtor, actx.cxx.addr != NULL, actx.cxx.idtor, vctx.cxx.addr != NULL, vctx.cxx.idtor);
+    printf(" net=%d dd=%d libfree=%d pool=%d cxx=%ld mal=%ld", vt_ctor - vt_dtor, vt_dd, vt_libfree, vt_pool_live, vt_cxx_live - base_cxx, vt_mal_live);
+    /* addr set? / owned by the caller (destructor index non-zero)?  The index is only meaningful while an address is held */
+    for (int s = 0; s < 2; s++) printf(" h%d=%d/%d", s, h[s].addr != NULL, h[s].addr ? h[s].idtor != 0 : 0);
+    printf(" s=%d/%d a=%d/%d v=%d/%d\n", sctx.cxx.addr != NULL, sctx.cxx.addr ? sctx.cxx.idtor != 0 : 0, actx.cxx.addr != NULL, actx.cxx.addr ? actx.cxx.idtor != 0 : 0,
+           vctx.cxx.addr != NULL, vctx.cxx.addr ? vctx.cxx.idtor != 0 : 0);
     fflush(stdout);
 }
 int main(int argc, char **argv) {
@@ -168,13 +211,13 @@ int main(int argc, char **argv) {
         int s = op[1] - '0', id = (int) (strchr(op, ':') ? atoi(strchr(op, ':') + 1) : 0);
         vt_count_malloc = 1;
         switch (op[0]) {
-        case 'c': OWN_Obj_ctor(id, &h[s]); break;
-        case 'm': val = OWN_Obj_id(&h[s]); break;
+        case 'c': OWN_Thing_ctor(id, &h[s]); break;
+        case 'm': val = OWN_Thing_id(&h[s]); break;
         case 'k': OWN_make(id, &h[s]); break;
         case 'b': OWN_borrow(&h[s]); break;
         case 'v': OWN_byvalue(id, &h[s]); break;
         case 'r': OWN_SHROUD_memory_destructor((OWN_SHROUD_capsule_data *) &h[s]); break;
-        case 'd': OWN_Obj_dtor(&h[s]); break;
+        case 'd': OWN_Thing_dtor(&h[s]); break;
         case 'y': h[op[2] - '0'] = h[s]; break;
         case 'S':
             if (op[1] == 'N') OWN_name_bufferify(&sctx);
@@ -186,15 +229,34 @@ int main(int argc, char **argv) {
         case 'A':
             if (op[1] == 'n') { OWN_new_array_bufferify(&actx, id); val = (long) actx.size; }
             else if (op[1] == 'l') { OWN_lib_array_bufferify(&actx, id); val = (long) actx.size; }
+            else if (op[1] == 'p') { OWN_pool_get_bufferify(&actx, id); val = (long) actx.size; }
             else if (op[1] == 'x') { OWN_SHROUD_memory_destructor(&actx.cxx); }
             break;
         case 'V':
             if (op[1] == 'f') { OWN_fill_vec_bufferify(&vctx); val = (long) vctx.size; }
+            else if (op[1] == 'r') { OWN_ret_vec_bufferify(&vctx); val = (long) vctx.size; }
             else if (op[1] == 'x') { int buf[8]; OWN_ShroudCopyArray(&vctx, buf, 3); val = buf[0] * 100 + buf[1] * 10 + buf[2]; }
             break;
         case 'T':
             if (op[1] == 's') OWN_take_str_bufferify("hello world, this is a long argument     ", 36);
             else if (op[1] == 'c') OWN_take_cstr("plain");
+            else if (op[1] == 'n') {
+                /* two names in a blank padded character(id) array, exact size, no terminator */
+                char *buf = (char *) malloc(2 * id); memset(buf, ' ', 2 * id); memcpy(buf, "ab", id < 2 ? id : 2); memcpy(buf + id, "c", id < 1 ? id : 1);
+                vt_seen = -1; OWN_take_names_bufferify(buf, 2, id); val = vt_seen; free(buf);
+            } else if (op[1] == 'm') {
+                char *buf = (char *) malloc(id ? id : 1); memset(buf, ' ', id); memcpy(buf, "dog", id < 3 ? id : 3);
+                vt_seen = -1; OWN_mod_str_bufferify(buf, id < 3 ? id : 3, id); val = vt_seen * 1000; for (int k = 0; k < id; k++) val += (buf[k] != ' '); free(buf);
+            } else if (op[1] == 'o') {
+                char *buf = (char *) malloc(id ? id : 1); memset(buf, 'z', id);
+                OWN_out_cstr_bufferify(buf, id); for (int k = 0; k < id; k++) val += (buf[k] != ' '); free(buf);
+            } else if (op[1] == 'v') {
+                int *buf = (int *) malloc(sizeof(int) * (id ? id : 1)); for (int k = 0; k < id; k++) buf[k] = k;
+                vt_seen = -1; OWN_take_vec_bufferify(buf, id); val = vt_seen; free(buf);
+            } else if (op[1] == 'w') {
+                char *buf = (char *) malloc(2 * id); memset(buf, ' ', 2 * id); memcpy(buf, "ab", id < 2 ? id : 2); memcpy(buf + id, "c", id < 1 ? id : 1);
+                vt_seen = -1; OWN_take_vec_str_bufferify(buf, 2, id); val = vt_seen; free(buf);
+            }
             break;
         default: printf("BADOP %s\n", op); return 2;
         }
@@ -205,6 +267,194 @@ int main(int argc, char **argv) {
 }
 """
 
+
+FDRIVER = r"""
+module vt_c
+  use iso_c_binding
+  implicit none
+  integer(C_LONG), bind(C, name="vt_seen") :: vt_seen
+  interface
+    subroutine vt_init() bind(C, name="vt_init")
+    end subroutine
+    subroutine vt_base() bind(C, name="vt_base")
+    end subroutine
+    subroutine vt_status_f(op, val, a0, o0, a1, o1) bind(C, name="vt_status_f")
+      import
+      character(kind=C_CHAR) :: op(*)
+      integer(C_LONG), value :: val
+      integer(C_INT), value :: a0, o0, a1, o1
+    end subroutine
+  end interface
+end module vt_c
+
+program drv
+  use iso_c_binding
+  use vt_c
+  use own_mod
+  implicit none
+  type(thing) :: h(0:1)
+  type(OWN_SHROUD_capsule), allocatable :: cap
+  integer(C_INT), pointer :: arr(:)
+  integer(C_INT) :: vec(3)
+  integer(C_INT), allocatable :: avec(:)
+  character(len=:), allocatable :: str
+  character(len=32) :: op
+  integer :: i, s, t, id, n, k
+  integer(C_LONG) :: val
+  call vt_init()
+  call vt_base()
+  call status('init', 0_C_LONG)
+  do i = 1, command_argument_count()
+    call get_command_argument(i, op)
+    val = 0
+    s = 0
+    id = 0
+    if (len_trim(op) >= 2) s = ichar(op(2:2)) - ichar('0')
+    n = index(op, ':')
+    if (n > 0) read(op(n+1:), *) id
+    select case (op(1:1))
+    case ('c')
+      h(s) = thing(int(id, C_INT))
+    case ('m')
+      val = h(s)%id()
+    case ('k')
+      h(s) = make(int(id, C_INT))
+    case ('b')
+      h(s) = borrow()
+    case ('v')
+      h(s) = byvalue(int(id, C_INT))
+    case ('d')
+      call h(s)%dtor()
+    case ('y')
+      t = ichar(op(3:3)) - ichar('0')
+      h(t) = h(s)
+    case ('S')
+      select case (op(2:2))
+      case ('N')
+        str = name()
+      case ('R')
+        str = nameref()
+      case ('C')
+        str = nameptr_c()
+      case ('L')
+        str = nameptr_l()
+      end select
+      val = len(str) * 1000 + len_trim(str)
+      deallocate(str)
+    case ('A')
+      select case (op(2:2))
+      case ('n')
+        if (allocated(cap)) deallocate(cap)
+        allocate(cap)
+        arr => new_array(int(id, C_INT), cap)
+        val = size(arr)
+      case ('p')
+        if (allocated(cap)) deallocate(cap)
+        allocate(cap)
+        arr => pool_get(int(id, C_INT), cap)
+        val = size(arr)
+      case ('l')
+        arr => lib_array(int(id, C_INT))
+        val = size(arr)
+      case ('x')   ! finalisation
+        if (allocated(cap)) deallocate(cap)
+      case ('d')   ! explicit release; the capsule variable stays
+        if (allocated(cap)) call cap%delete()
+      end select
+    case ('V')
+      if (op(2:2) == 'f') then
+        vec = 0
+        call fill_vec(vec)
+        val = vec(1) * 100 + vec(2) * 10 + vec(3)
+      else
+        avec = ret_vec()
+        val = avec(1) * 100 + avec(2) * 10 + avec(3)
+        deallocate(avec)
+      end if
+    case ('T')
+      vt_seen = -1
+      select case (op(2:2))
+      case ('s')
+        call take_str('hello world, this is a long argument     ')
+        vt_seen = 0
+      case ('c')
+        call take_cstr('plain')
+        vt_seen = 0
+      case ('n')
+        call names_case(id)
+      case ('m')
+        call mod_case(id, val)
+      case ('o')
+        call out_case(id, val)
+      case ('v')
+        call vec_case(id)
+      case ('w')
+        call vecstr_case(id)
+      end select
+      if (op(2:2) /= 'm' .and. op(2:2) /= 'o') val = vt_seen
+    end select
+    call status(trim(op), val)
+  end do
+  if (allocated(cap)) deallocate(cap)   ! the driver's own allocation
+contains
+  subroutine status(name, v)
+    character(len=*), intent(in) :: name
+    integer(C_LONG), intent(in) :: v
+    integer(C_INT) :: a0, a1
+    a0 = 0
+    a1 = 0
+    if (c_associated(h(0)%cxxmem%addr)) a0 = 1
+    if (c_associated(h(1)%cxxmem%addr)) a1 = 1
+    call vt_status_f(name // C_NULL_CHAR, v, a0, h(0)%cxxmem%idtor, a1, h(1)%cxxmem%idtor)
+  end subroutine
+  subroutine names_case(n)
+    integer, intent(in) :: n
+    character(len=n) :: names(2)
+    names(1) = 'ab'
+    names(2) = 'c'
+    call take_names(names)
+  end subroutine
+  subroutine vecstr_case(n)
+    integer, intent(in) :: n
+    character(len=n) :: names(2)
+    names(1) = 'ab'
+    names(2) = 'c'
+    call take_vec_str(names)
+  end subroutine
+  subroutine mod_case(n, v)
+    integer, intent(in) :: n
+    integer(C_LONG), intent(out) :: v
+    character(len=n) :: sv
+    integer :: k
+    sv = 'dog'
+    call mod_str(sv)
+    v = vt_seen * 1000
+    do k = 1, n
+      if (sv(k:k) /= ' ') v = v + 1
+    end do
+  end subroutine
+  subroutine out_case(n, v)
+    integer, intent(in) :: n
+    integer(C_LONG), intent(out) :: v
+    character(len=n) :: sv
+    integer :: k
+    call out_cstr(sv)
+    v = 0
+    do k = 1, n
+      if (sv(k:k) /= ' ') v = v + 1
+    end do
+  end subroutine
+  subroutine vec_case(n)
+    integer, intent(in) :: n
+    integer(C_INT) :: v(n)
+    integer :: k
+    do k = 1, n
+      v(k) = k - 1
+    end do
+    call take_vec(v)
+  end subroutine
+end program drv
+"""
 
 # ---------------------------------------------------------------- the reference model
 class M(object):
@@ -237,6 +487,10 @@ class M(object):
 
 
 IDS = {0: 5, 1: 7}
+# stateless calls whose wrappers build temporaries: op -> value the driver must report
+TEMP_VALS = {"Tn:1": 101, "Tn:4": 201, "Tm:1": 1001, "Tm:3": 3003, "Tm:8": 3006, "To:20": 11, "To:32": 11,
+             "Tv:0": 0, "Tv:3": 3, "Tw:1": 201, "Tw:4": 201}
+TEMP_OPS = sorted(TEMP_VALS)
 
 
 def enabled(m):
@@ -263,14 +517,13 @@ def enabled(m):
     else:
         ops.append("Sx")
     if m.a is None:
-        ops += ["An:3", "Al:3", "An:0"]
-    else:
-        ops.append("Ax")
+        ops += ["An:3", "Al:3", "An:0", "Ap:3"]
+    ops.append("Ax")  # releasing an empty / already released context does nothing
     if m.v is None:
-        ops.append("Vf")
+        ops += ["Vf", "Vr"]
     else:
         ops.append("Vx")
-    ops += ["Ts", "Tc"]
+    ops += ["Ts", "Tc"] + TEMP_OPS
     return ops
 
 
@@ -322,6 +575,8 @@ def step(m, op):
         else:
             m.a = op[1]
             val = ident
+    elif k == "T":
+        val = TEMP_VALS.get(op, 0)
     elif k == "V":
         if op[1] == "x":
             val = 456
@@ -348,21 +603,83 @@ def expected_line(m, op, val):
     if m.v == "f":
         cxx += 2  # the std::vector object and its element buffer
     mal = 1 if m.a == "n" else 0
+    pool = 1 if m.a == "p" else 0
     hs = []
     for s in (0, 1):
         x = m.h[s]
         if x is None:
             hs.append("h%d=0/0" % s)
         elif x.get("dtored"):
-            hs.append("h%d=0/%d" % (s, 1))
+            hs.append("h%d=0/0" % s)
         else:
             hs.append("h%d=1/%d" % (s, 1 if x["owner"] == "caller" else 0))
-    sidt = {"N": 2, "C": 3, "R": 0, "L": 0}
+    sidt = {"N": 1, "C": 1, "R": 0, "L": 0}
     sfield = "s=%d/%d" % (1 if m.s else 0, sidt[m.s] if m.s else 0)
-    afield = "a=%d/%d" % (1 if m.a else 0, 4 if m.a == "n" else 0)
-    vfield = "v=%d/%d" % (1 if m.v else 0, 5 if m.v else 0)
-    return "ST %s val=%d live=%s net=%d dd=0 libfree=0 cxx=%d mal=%d %s %s %s %s" % (
-        op, val, live, m.ctor - m.dtor, cxx, mal, " ".join(hs), sfield, afield, vfield)
+    afield = "a=%d/%d" % (1 if m.a else 0, 1 if m.a in ("n", "p") else 0)
+    vfield = "v=%d/%d" % (1 if m.v else 0, 1 if m.v else 0)
+    return "ST %s val=%d live=%s net=%d dd=0 libfree=0 pool=%d cxx=%d mal=%d %s %s %s %s" % (
+        op, val, live, m.ctor - m.dtor, pool, cxx, mal, " ".join(hs), sfield, afield, vfield)
+
+
+# ---------------------------------------------------------------- the Fortran front end
+def f_expand(m, op):
+    """Model operations a Fortran-level operation stands for (results are fetched and released in one call)."""
+    k = op[0]
+    pre = []
+    if k in "ckbv":
+        x = m.h[int(op[1])]
+        if x is not None:
+            pre = ["r" + op[1]]  # overwriting a handle that owns nothing (destroyed or borrowed) is an assignment
+    if k == "S":
+        return [op, "Sx"]
+    if op.startswith("Al"):
+        return [op, "Ax"]
+    if op == "Ad":
+        return ["Ax"]
+    if k == "V":
+        return [op, "Vx"]
+    return pre + [op]
+
+
+def f_enabled(m):
+    ops = []
+    for op in enabled(m):
+        if op[0] == "r" or op in ("Sx", "Vx"):
+            continue
+        ops.append(op)
+    for s_ in (0, 1):
+        x = m.h[s_]
+        if x is not None and s_ not in m.stale and (x.get("dtored") or x["owner"] == "library") and not x.get("alias"):
+            ops += ["c%d:%d" % (s_, IDS[s_]), "k%d:%d" % (s_, IDS[s_]), "b%d" % s_, "v%d:%d" % (s_, IDS[s_])]
+    ops.append("Ad")
+    return ops
+
+
+def f_step(m, op):
+    val = 0
+    seq = f_expand(m, op)
+    for i, mop in enumerate(seq):
+        m, v = step(m, mop)
+        if not (op.startswith("Al") and i == 1) and not (mop[0] == "r" and i == 0 and len(seq) > 1):
+            val = v
+    if op in ("Ad", "Ax"):
+        val = 0
+    return m, val
+
+
+def f_line(line):
+    import re
+    line = re.sub(r" mal=\S+", "", line)
+    return re.sub(r" s=\S+ a=\S+ v=\S+$", "", line)
+
+
+def f_model_trace(hist):
+    m = M()
+    lines = [f_line(expected_line(m, "init", 0))]
+    for op in hist:
+        m, val = f_step(m, op)
+        lines.append(f_line(expected_line(m, op, val)))
+    return m, lines
 
 
 def build_drivers(ctx):
@@ -374,6 +691,7 @@ def build_drivers(ctx):
     open(os.path.join(out, "own.hpp"), "w").write(HPP)
     open(os.path.join(out, "subject.cpp"), "w").write(CPP)
     open(os.path.join(out, "driver.c"), "w").write(DRIVER)
+    open(os.path.join(out, "fdriver.f90"), "w").write(FDRIVER)
     gens = sorted(f for f in os.listdir(out) if f.endswith(".cpp") and f != "subject.cpp")
     exes = {}
     for tag, flags, link in (("plain", [], ["-Wl,--wrap=malloc,--wrap=free"]),
@@ -390,6 +708,18 @@ def build_drivers(ctx):
         if rc != 0:
             raise build.BuildError("link", se[:800])
         exes[tag] = os.path.join(out, "drv_" + tag)
+        # the Fortran front end: generated module + interpreter driver, same subject objects
+        fobjs = []
+        for src in ("wrapfown.f", "fdriver.f90"):
+            o = "%s_%s.o" % (os.path.splitext(src)[0], tag)
+            rc, so, se = build.sh(["gfortran", "-cpp", "-ffree-form", "-ffree-line-length-none", "-g", "-O0", "-w"] + [f for f in flags if f.startswith("-f")] + ["-c", src, "-o", o], out)
+            if rc != 0:
+                raise build.BuildError("compile %s" % src, se[:800])
+            fobjs.append(o)
+        rc, so, se = build.sh(["gfortran", "-o", "fdrv_" + tag] + fobjs + [o for o in objs if not o.startswith("driver")] + ["-lstdc++"] + link, out)
+        if rc != 0:
+            raise build.BuildError("link fortran", se[:800])
+        exes["f" + tag] = os.path.join(out, "fdrv_" + tag)
     return exes
 
 
@@ -397,7 +727,7 @@ def run_history(args):
     exe, hist, asan = args
     env = dict(os.environ, ASAN_OPTIONS="detect_leaks=1:exitcode=99:abort_on_error=0")
     rc, so, se = build.sh([exe] + list(hist), os.path.dirname(exe), env=env, timeout=60)
-    return rc, [l for l in so.split("\n") if l.startswith("ST ")], (se or "")[-600:]
+    return rc, [l for l in so.split("\n") if l.startswith("ST ")], ((se or "")[:900] + (" ... " + se[-400:] if len(se or "") > 1300 else (se or "")[900:]))
 
 
 def model_trace(hist):
@@ -444,6 +774,8 @@ def run(ctx):
         for hist in lvl:
             m, _ = model_trace(hist)
             for op in enabled(m):
+                if d >= 2 and op in TEMP_VALS and any(h in TEMP_VALS for h in hist):
+                    continue  # stateless calls: all pairs, and every position of a depth-3 history, but not all triples
                 nxt.append(hist + (op,))
         unmerged += nxt
         lvl = nxt
@@ -470,11 +802,69 @@ def run(ctx):
         # judged on histories that end in a quiescent model state
         m, _ = model_trace(hist)
         quiescent = m.live == [900] and m.s is None and m.a is None and m.v is None
-        mem_error = rc != 0 and ("LeakSanitizer" not in se or "AddressSanitizer:" in se.replace("LeakSanitizer", ""))
+        mem_error = rc != 0 and ("ERROR: AddressSanitizer" in se or "LeakSanitizer" not in se)
         leak = rc != 0 and "LeakSanitizer" in se and quiescent
         if mem_error or leak:
-            ctx.violation("asan %s" % key_for(hist, se), "history %s under AddressSanitizer: %s" % (" ".join(hist), se[-400:].replace("\n", " | ")),
+            ctx.violation("asan %s" % key_for(hist, se), "history %s under AddressSanitizer: %s" % (" ".join(hist), se[:700].replace("\n", " | ")),
                           {"kind": "asan", "history": list(hist)})
+    # ---- the Fortran front end: the same model, driven through the generated module (finaliser, type-bound delete)
+    fdepth = 3 if quick else 4
+    fseen = {M().key(): ()}
+    ffront = collections.deque([()])
+    fh = []
+    while ffront:
+        hist = ffront.popleft()
+        m, _ = f_model_trace(hist)
+        if len(hist) >= fdepth:
+            continue
+        for op in f_enabled(m):
+            if len(hist) >= 2 and op in TEMP_VALS and any(h in TEMP_VALS for h in hist):
+                continue
+            nh = hist + (op,)
+            fh.append(nh)
+            m2, _ = f_step(m, op)
+            k = m2.key()
+            if k not in fseen:
+                fseen[k] = nh
+                ffront.append(nh)
+    # all Fortran histories to depth 3 without state merging ("released" and "never held" are one model state)
+    lvl = [()]
+    funm = []
+    for d in range(3):
+        nxt = []
+        for hist in lvl:
+            m, _ = f_model_trace(hist)
+            for op in f_enabled(m):
+                if op in TEMP_VALS and (d >= 1 and any(h in TEMP_VALS for h in hist) or d == 2):
+                    continue
+                nxt.append(hist + (op,))
+        funm += nxt
+        lvl = nxt
+    fh = sorted(set(fh) | set(funm), key=lambda h: (len(h), h))
+    fres = isolate.pmap(run_history, [(exes["fplain"], h, False) for h in fh], ctx.workers, chunksize=16)
+    for hist, (rc, got, se) in zip(fh, fres):
+        _, want = f_model_trace(hist)
+        if rc != 0 or got != want:
+            diff = ""
+            for i, w in enumerate(want):
+                g = got[i] if i < len(got) else "(missing)"
+                if g != w:
+                    diff = "after %s:\n      got      %s\n      expected %s" % (" ".join(hist[:i + 0]) or "(start)", g, w)
+                    break
+            ctx.violation("fortran protocol %s" % key_for(hist, diff), "Fortran history %s: %s%s" % (" ".join(hist), diff or "exit %d" % rc, ("  stderr: " + se[-200:]) if rc else ""),
+                          {"kind": "fortran", "history": list(hist)})
+    fah = [h for h in fh if len(h) <= (2 if quick else 3)]
+    fares = isolate.pmap(run_history, [(exes["fasan"], h, True) for h in fah], ctx.workers, chunksize=8)
+    for hist, (rc, got, se) in zip(fah, fares):
+        m, _ = f_model_trace(hist)
+        quiescent = m.live == [900] and m.s is None and m.a is None and m.v is None
+        mem_error = rc != 0 and ("ERROR: AddressSanitizer" in se or "LeakSanitizer" not in se)
+        leak = rc != 0 and "LeakSanitizer" in se and quiescent
+        if mem_error or leak:
+            ctx.violation("fortran asan %s" % key_for(hist, se), "Fortran history %s under AddressSanitizer: %s" % (" ".join(hist), se[:700].replace("\n", " | ")),
+                          {"kind": "fortran-asan", "history": list(hist)})
+    ctx.part("fortran", depth=fdepth, model_states=len(fseen), transitions_executed=len(fh), asan_histories=len(fah))
+    ctx.count(states=len(fseen), transitions=len(fh) + len(fah), validated=len(fh) + len(fah))
     ctx.count(states=len(seen), transitions=len(allh) + len(ah), validated=len(allh) + len(ah))
     ctx.nontrivial_n(len(allh))
     ctx.part("bfs", depth=depth, model_states=len(seen), transitions_executed=len(transitions), unmerged_histories_depth3=len(unmerged), asan_histories=len(ah))
@@ -485,7 +875,8 @@ def run(ctx):
                       "must equal the model; all histories to depth 3 also run unmerged; the same histories run under AddressSanitizer" % depth)
     ctx.cov["bounds"] = {"depth": depth, "slots": 2}
     ctx.assumptions += ["operations through a handle the model marks stale (released through an alias) are caller errors and are not generated",
-                        "the C API (including the bufferify entry points Fortran calls) is the driven seam; Fortran finalisation and Python tp_del are not explored"]
+                        "two driven seams: the C API (including the bufferify entry points) and the generated Fortran module (class handles, capsule finaliser through deallocate, type-bound delete); Python tp_del is not explored",
+                        "Fortran: gfortran's own run-time allocations make the malloc balance meaningless there; malloc'ed results are judged by LeakSanitizer on histories that end in a quiescent model state"]
 
 
 def key_for(hist, text):
